@@ -312,9 +312,30 @@ def recvOut (all : Bool) (got : Array String) : String :=
     | none => "none"
     | some g => "msg " ++ g
 
+/-- engine E5b (harness/src/tpmax.rs): a bare netcode endpoint seals one payload of `len` bytes for a real
+    transport; the transport's `recv_from` cuts the datagram to its buffer and the netcode layer opens it -/
+def mxKey : Bytes := List.replicate 32 9
+
+def mxStep (dir : String) (len : Nat) : String :=
+  let cap := if dir = "s2c" then RenetVerif.C.TRANSPORT_CLIENT_BUFFER else RenetVerif.C.TRANSPORT_SERVER_BUFFER
+  let payload : Bytes := List.replicate len 0x5A
+  -- `generate_payload_packet`: `PayloadAboveLimit` before anything is written
+  if len > Netcode.C.NETCODE_MAX_PAYLOAD_BYTES then "too-big" else
+  match Netcode.Packet.encode aead (Netcode.Packet.payload payload) Netcode.C.NETCODE_MAX_PACKET_BYTES PROTOCOL_ID (some (1, mxKey)) with
+  | .ok d =>
+    match Netcode.Packet.decode aead (recvFrom cap (serverSock, d)).2 PROTOCOL_ID (some mxKey) none with
+    | (.ok (_, Netcode.Packet.payload p), _) => if p == payload then "delivered" else "dropped"
+    | _ => "dropped"
+  | _ => "too-big"
+
 def stepOp (w : TWorld) (toks : List String) : Option (TWorld × String) :=
   match toks with
   | "note" :: _ => some (w, "ok")
+  | ["mxnew"] => some (w, "ok")
+  | ["mx", dir, len] => some <|
+    match pU64 len with
+    | some n => if (dir = "s2c" || dir = "c2s") && 71 ≤ n && n < 16391 then (w, mxStep dir n) else (w, "bad-op")
+    | none => (w, "bad-op")
   | "t-new" :: args => some <|
     let parsed : Option (Nat × Nat × Int × Nat × Nat) :=
       match args with
@@ -348,7 +369,7 @@ def stepOp (w : TWorld) (toks : List String) : Option (TWorld × String) :=
       | some (s, c) => do
         let d := us * 1000
         let rc ← c.g.renet.update d
-        let r ← clientUpdate aead { c.g with renet := rc } d c.inbox.toList
+        let r ← clientUpdate aead { c.g with renet := rc } d (c.inbox.toList.map (recvFrom RenetVerif.C.TRANSPORT_CLIENT_BUFFER))
         let tw := setCl tw k s { c with g := r.g, inbox := r.rest.toArray }
         pure (routeUp tw r.out, resultStr r.result)
     | _, _ => (w, "bad-op")
@@ -366,7 +387,7 @@ def stepOp (w : TWorld) (toks : List String) : Option (TWorld × String) :=
     | some us => withW w fun tw => do
       let d := us * 1000
       let rs ← tw.g.renet.update d
-      let (g, out) ← serverUpdate aead { tw.g with renet := rs } d tw.inbox.toList
+      let (g, out) ← serverUpdate aead { tw.g with renet := rs } d (tw.inbox.toList.map (recvFrom RenetVerif.C.TRANSPORT_SERVER_BUFFER))
       let tw := collectEvents { tw with g, inbox := #[], serverTime := tw.serverTime + d }
       pure (routeDown tw out, "ok")
     | none => (w, "bad-op")
